@@ -338,3 +338,126 @@ func c12Canonical(c *Ctx) {
 		r.AnchorMissing("C12.canonical", fmt.Sprintf("constructors receiving (*big.Int).Bytes() from their parser (found %d, expected the RSA-SSA-PKCS1 and RSA-SSA-PSS public key constructors)", n))
 	}
 }
+
+// ---------------------------------------------------------------- C07.fullread
+//
+// A bare r.Read(buf) may return fewer bytes than len(buf) without an error
+// (io.Reader contract). In the streaming packages every Read on an underlying
+// reader either has its count used, or its results forwarded unchanged to the
+// caller; a read whose count is thrown away treats a short read as a full one.
+func c07FullRead(c *Ctx) {
+	p, r := c.P, c.R
+	n := 0
+	for _, f := range p.SortedFuncs(core.Product) {
+		if !isStreamPkg(core.Rel(core.PkgOf(f))) {
+			continue
+		}
+		allInstrs(f, func(ins ssa.Instruction) {
+			call, ok := ins.(*ssa.Call)
+			if !ok || !call.Call.IsInvoke() || call.Call.Method.Name() != "Read" || call.Call.Method.Pkg() == nil || call.Call.Method.Pkg().Path() != "io" {
+				return
+			}
+			n++
+			key := fmt.Sprintf("C07.fullread/%s#%d", core.FuncID(f), n)
+			used := false
+			for _, ref := range *call.Referrers() {
+				switch x := ref.(type) {
+				case *ssa.Extract:
+					if x.Index == 0 && len(*x.Referrers()) > 0 {
+						used = true
+					}
+				case *ssa.Return:
+					used = true // results forwarded as they are
+				}
+			}
+			r.Check(used, "C07.fullread", key, p.Pos(call.Pos()), "the byte count of a Read on the underlying reader is discarded: a short read (allowed by io.Reader without an error) is treated as if the buffer had been filled — use io.ReadFull or the count", "count used or forwarded")
+		})
+	}
+	if n == 0 {
+		r.Outside("C07.fullread", "C07.fullread/none", "-", "no direct io.Reader.Read call in the streaming packages")
+	}
+}
+
+// ---------------------------------------------------------------- C07.replay
+//
+// The keyset-level reader tries each key on a replaying wrapper of the source.
+// Everything the wrapper reads from the source while replay is enabled must go
+// into the replay buffer — including bytes that arrive together with an error
+// (io.Reader may return n > 0 and io.EOF at once): every return after the
+// underlying read is either under disabled == true or dominated by the append
+// of buf[:n].
+func c07Replay(c *Ctx) {
+	p, r := c.P, c.R
+	var rd *ssa.Function
+	for _, f := range pkgFuncs(p, "streamingaead") {
+		if f.Name() == "unread" && f.Signature.Recv() != nil {
+			rd = p.MethodOf(f.Signature.Recv().Type(), "Read")
+		}
+	}
+	if rd == nil {
+		r.Outside("C07.replay", "C07.replay/none", "-", "no type with an unread() method in package streamingaead")
+		return
+	}
+	var src *ssa.Call
+	allInstrs(rd, func(ins ssa.Instruction) {
+		if call, ok := ins.(*ssa.Call); ok && call.Call.IsInvoke() && call.Call.Method.Name() == "Read" {
+			src = call
+		}
+	})
+	key := "C07.replay/" + core.FuncID(rd)
+	if src == nil {
+		r.Outside("C07.replay", key, p.FuncPos(rd), "no read of the underlying source in this method")
+		return
+	}
+	// appends of buf[:n] (n the count of that read) to the replay buffer
+	var recs []*ssa.BasicBlock
+	allInstrs(rd, func(ins ssa.Instruction) {
+		call, ok := ins.(*ssa.Call)
+		if !ok {
+			return
+		}
+		b, isB := call.Call.Value.(*ssa.Builtin)
+		if !isB || b.Name() != "append" || len(call.Call.Args) != 2 {
+			return
+		}
+		sl, isSl := guard.Strip(call.Call.Args[1]).(*ssa.Slice)
+		if !isSl || guard.Strip(sl.X) != ssa.Value(rd.Params[1]) || sl.High == nil {
+			return
+		}
+		if ex, isEx := guard.Strip(sl.High).(*ssa.Extract); !isEx || ex.Tuple != ssa.Value(src) || ex.Index != 0 {
+			return
+		}
+		recs = append(recs, call.Block())
+	})
+	bad := ""
+	for _, ret := range guard.Returns(rd) {
+		if !guard.Reaches(src, ret) {
+			continue
+		}
+		paths, okP := guard.PathsTo(ret.Block(), 5000)
+		if !okP {
+			bad = p.Pos(ret.Pos()) + " (too many paths)"
+			continue
+		}
+		for _, pa := range paths {
+			if !pa.Has(src.Block()) {
+				continue
+			}
+			ok := false
+			for _, rb := range recs {
+				if pa.Has(rb) {
+					ok = true
+				}
+			}
+			for _, fct := range pa.Facts {
+				if _, fld, isF := guard.FieldOf(fct.Cond); isF && fld == "disabled" && fct.True {
+					ok = true
+				}
+			}
+			if !ok {
+				bad = p.Pos(ret.Pos())
+			}
+		}
+	}
+	r.Check(bad == "" && len(recs) > 0, "C07.replay", key, p.FuncPos(rd), "a return after reading from the source (at "+bad+") is reached without the bytes read having been appended to the replay buffer while replay is enabled: bytes delivered together with an error are lost for the next candidate key", "every return after the read: disabled, or buf[:n] recorded")
+}
